@@ -302,7 +302,7 @@ def run_case(case: dict[str, Any], wd: Path) -> dict[str, Any]:
 
         shutil.rmtree(wd / "run" / "world", ignore_errors=True)
         for f_ in (wd / "run").glob("out*.nc"):
-            if fault == "warm_start_stop_not_after_restart_time" and f_.name == "out.nc":
+            if fault == "warm_start_stop_not_after_restart_time" and f_.name == "out.nc" and res0.ok:
                 f_.rename(wd / "run" / "warm_from.nc")
                 continue
             f_.unlink()
@@ -310,7 +310,8 @@ def run_case(case: dict[str, Any], wd: Path) -> dict[str, Any]:
         import shutil  # noqa: PLC0415
 
         (wd / "fault").mkdir(parents=True, exist_ok=True)
-        shutil.copy(wd / "base" / "out.nc", wd / "fault" / "warm_from.nc")
+        if (wd / "base" / "out.nc").exists():
+            shutil.copy(wd / "base" / "out.nc", wd / "fault" / "warm_from.nc")
     if not res0.ok or nupd0 != b["ns"] or nrec0 == 0:
         return C.result([], sit, cnt, nontrivial=False, key=key, sample=desc, void=True, note=f"fault-free base did not run: {res0.exc}")
     sit["base_reversed" if b["reversed"] else "base_forward"] = 1
